@@ -144,9 +144,7 @@ def run(ctx):
             elif kind == "read-only":
                 src = ReadOnlySource(stream)
             else:
-                if s % 10:
-                    continue
-                src = io.BufferedReader(io.BytesIO(stream), buffer_size=7)
+                src = io.BufferedReader(io.BytesIO(stream), buffer_size=r.choice([1, 2, 3, 5, 7, 16, 64]))
             try:
                 got = [entity_reader(c)(src) for _, c, _, _ in msgs]
                 rest = src.read(len(trail) + 10)
